@@ -143,7 +143,10 @@ def to_json(v):
                         v.microsecond,
                         ['ruletz', v.fold] if isinstance(v.tzinfo, RuleTZ) else
                         ('nulltz' if v.tzinfo is not None else None)
-                        if off is None else off.days * 86400 + off.seconds]}
+                        if off is None else
+                        (off.days * 86400 + off.seconds if not off.microseconds else
+                         {'s': off.days * 86400 + off.seconds,
+                          'us': off.microseconds})]}
     if isinstance(v, datetime.date):
         return {'$date': [v.year, v.month, v.day]}
     if isinstance(v, time.struct_time):
@@ -190,6 +193,10 @@ def from_json(j):
             if isinstance(off, list):
                 return datetime.datetime(y, mo, d, h, mi, s, us, tzinfo=RULETZ,
                                          fold=off[1])
+            if isinstance(off, dict):
+                tz = datetime.timezone(datetime.timedelta(seconds=off['s'],
+                                                          microseconds=off['us']))
+                return datetime.datetime(y, mo, d, h, mi, s, us, tzinfo=tz)
             tz = None if off is None else NULLTZ if off == 'nulltz' else \
                 datetime.timezone(datetime.timedelta(seconds=off))
             return datetime.datetime(y, mo, d, h, mi, s, us, tzinfo=tz)
@@ -310,7 +317,9 @@ def canon(v):
         off = v.utcoffset()
         return ('datetime', (v.year, v.month, v.day, v.hour, v.minute,
                              v.second, v.microsecond),
-                None if off is None else off.days * 86400 + off.seconds)
+                None if off is None else
+                (off.days * 86400 + off.seconds, off.microseconds)
+                if off.microseconds else off.days * 86400 + off.seconds)
     if t is list:
         return ('list', tuple(canon(x) for x in v))
     if t is tuple:
